@@ -87,9 +87,18 @@ CommentUnits == { <<10>>, <<13>>, <<9>>, <<11>>, <<12>>, <<32>>, <<34>>, <<35>>,
 BadUnits == { <<255>>, <<133>>, <<160>>, <<194>>, <<239, 191, 189>>, <<1>>, <<36>> }
 PickBad == /\ Scope = "badchar" /\ phase = 0 /\ \E c \in BadUnits, r \in 1..(Len(Seps) - 1) : ch' = c /\ style' = [style EXCEPT !.rot = r]
            /\ phase' = 100 /\ UNCHANGED <<prog, body>>
+\* "glue": two tokens that the L1 lexer separates without any layout between them (a number, a string, an operator or a bracket followed
+\* by an identifier that starts with '_', by a string, by a number ...) written with and without a blank: the same program
+GlueLeft == { <<49>>, <<48, 120, 49, 102>>, <<50, 46, 53>>, <<34, 115, 34>>, <<41>>, <<120>> }              \* 1  0x1f  2.5  "s"  )  x
+GlueRight == { <<95, 97>>, <<95, 49>>, <<34, 116, 34>>, <<40, 49, 41>>, <<35, 99>> }                           \* _a  _1  "t"  (1)  #c
+PickGlue == /\ Scope = "glue" /\ phase = 0 /\ \E l \in GlueLeft, r \in GlueRight : body' = l /\ ch' = r
+            /\ phase' = 100 /\ UNCHANGED <<prog, style>>
+GlueOk == LET a == [k |-> "x", text |-> body] b == [k |-> "x", text |-> ch]
+              ta == ToksOf(body) tb == ToksOf(ch) tab == ToksOf(body \o ch) IN
+          Len(ta) = 2 /\ Len(tb) >= 2 /\ Len(tab) = Len(ta) + Len(tb) - 1 /\ tab[1] = ta[1] /\ tab[2] = tb[1]
 PickCh == /\ Scope = "comment" /\ phase = 0 /\ \E c \in CommentUnits : ch' = c
           /\ phase' = 100 /\ UNCHANGED <<prog, style, body>>
-Next == AddItem \/ PickStyle \/ AddUnit \/ PickCh \/ PickBad
+Next == AddItem \/ PickStyle \/ AddUnit \/ PickCh \/ PickBad \/ PickGlue
 Spec == Init /\ [][Next]_vars
 
 \* a def a {...} around the block items keeps fields and TYPE legal
@@ -108,6 +117,9 @@ Emit ==
         PrintT(<<"CASE", ToJson([fam |-> "layout", kind |-> "pair", a |-> SrcA, b |-> SrcB, out |-> <<>>, nt |-> (Len(prog) >= 2)])>>)
   /\ (Scope = "strings" /\ phase >= 1) =>
         PrintT(<<"CASE", ToJson([fam |-> "layout", kind |-> "string", a |-> StrSrc, b |-> <<>>, out |-> body \o <<10>>, nt |-> (phase >= 2)])>>)
+  /\ (Scope = "glue" /\ phase = 100 /\ GlueOk) =>
+        PrintT(<<"CASE", ToJson([fam |-> "layout", kind |-> "pair", a |-> <<100, 101, 102, 32, 98, 32, 123, 32, 120, 32, 61, 32>> \o body \o <<32>> \o ch \o <<10, 125, 10>>,
+                                  b |-> <<100, 101, 102, 32, 98, 32, 123, 32, 120, 32, 61, 32>> \o body \o ch \o <<10, 125, 10>>, out |-> <<>>, nt |-> TRUE])>>)
   /\ (Scope = "badchar" /\ phase = 100) =>
         PrintT(<<"CASE", ToJson([fam |-> "layout", kind |-> "pair", a |-> <<112, 114, 105, 110, 116, 32, 49>> \o ch \o <<10>>,
                                   b |-> <<112, 114, 105, 110, 116, 32, 49>> \o Seps[style.rot] \o ch \o <<10>>, out |-> <<>>, nt |-> TRUE])>>)
